@@ -26,6 +26,7 @@ RULE = (
     "by their former node_id. Non-trivial: >= 3 structure-changing ops succeeded and the tree had >= 5 nodes with a "
     "clone group or equal-comparing siblings at some step; distinct = distinct case."
 )
+EXHAUSTIVE_NOTE = {"quick": "two-step histories (re-key/move, then remove x keep_children x with_clones) on all clone labelings over {a,b} of forests <= 3 nodes", "thorough": "the same for forests <= 4 nodes"}
 ASSUMPTIONS = [
     "node objects ever seen are kept alive by the harness, so an id() is never recycled inside a case",
     "Tree._self_check() is not used (private; asserts node_id == id(node))",
@@ -54,6 +55,12 @@ def run(case, rec):
             rec.fail(f"{problems[0][0]}:after:{route.split(':')[0]}:{how}", {"op": op, "route": route, "detail": problems[0][1],
                                                                             "raised": repr(out.raised)[:120] if out.raised else None})
             return
+        if out.plan.status == "valid" and out.raised is None and out.expected_gone:
+            reach = {id(n) for n in w.pre}
+            still = [n for n in out.expected_gone if id(n) in reach]
+            if still:
+                rec.fail(f"removed-node-still-reachable:after:{route.split(':')[0]}", {"op": op, "route": route, "nodes": [repr(n) for n in still[:3]]})
+                return
         if out.plan.status == "valid" and out.raised is None and op[0] in STRUCT and eng.model.snapshot() != before:
             changed += 1
         if route.startswith("move:into-own-branch"):
@@ -77,6 +84,26 @@ def hyp_cases(draw, tier):
     return case
 
 
+def enum_cases(tier):
+    """Two-step histories on small clone labelings: first re-key or move a node (so that a clone nested
+    below its twin can be OLDER in the index than the outer one), then remove with every flag combination."""
+    from vlib import enumer
+
+    nmax = 3 if tier == "quick" else 4
+    for n in range(2, nmax + 1):
+        for shp in enumer.forest_shapes(n):
+            for spec in enumer.sibling_unique_labelings(shp, ["a", "b"]):
+                firsts = [["rename", i, lab] for i in range(n) for lab in ("a", "b")]
+                firsts += [["move", i, t, None] for i in range(n) for t in range(-1, n)]
+                firsts += [["set_data", i, lab, None, True, False] for i in range(n) for lab in ("a", "b")]
+                for f in firsts:
+                    for k in range(n):
+                        for kc in (False, True):
+                            for wc in (False, True):
+                                yield {"spec": spec, "spec2": [], "typed": False, "ops": [f, ["remove", k, kc, wc]], "profile": "two-step"}
+
+
 PARTS = [
     Part("histories", run, strategy=hyp_cases, n={"quick": 1500, "thorough": 200000}),
+    Part("two-step-clones", run, enum=enum_cases),
 ]
